@@ -212,6 +212,18 @@ theorem augmentLoop_noPending (reg : Registry) {s : PState} (hs : NoPending s) (
 
 theorem fixAll_noPending {s : PState} (hs : NoPending s) : NoPending (Tree.fixAll s) := hs
 
+/-- With nothing pending the retry rounds stop after the first (empty) loop. -/
+theorem leftoverRounds_noPending (reg : Registry) {s : PState} (hs : NoPending s) (fuel n : Nat) (mods : Array Nat) :
+    (leftoverRounds reg fuel n mods s).2 = s := by
+  cases n with
+  | zero => rfl
+  | succ n =>
+    have hc : Rounds.loopCount reg fuel mods s = 0 :=
+      (Rounds.loopCount_eq_zero reg fuel mods s).mpr
+        (Or.inr (Or.inr (by rw [augmentPass_noPending reg hs (mods.size + 1) mods 0 0])))
+    rw [Rounds.leftoverRounds_succ, if_pos hc]
+    exact augmentLoop_noPending reg hs fuel mods
+
 theorem leftover_noPending (reg : Registry) {s : PState} (hs : NoPending s) (left : List Nat) (n : Nat) :
     left.foldl (fun (acc : PState × Nat) id =>
       let (s, p, _) := augmentTree reg id true acc.1
